@@ -97,6 +97,7 @@ class LegacyDFXPWriter(BaseWriter):
         self.open_span = False
 
     def write(self, caption_set, force=''):
+        self.open_span = False
         caption_set = deepcopy(caption_set)
         caption_set = merge_concurrent_captions(caption_set)
 
